@@ -24,7 +24,7 @@ const maxPortableLength = 247
 // scan of a link that exists on disk or through a transition that is asked to
 // create it.
 type Case struct {
-	Mode   string `json:"mode"` // "scan" or "transition"
+	Mode   string `json:"mode"` // "scan", "transition" or "retarget"
 	Depth  int    `json:"depth"`
 	Target string `json:"target"`
 }
@@ -182,13 +182,13 @@ func Judge(c *Case, o *Obs) (violation string, escape bool) {
 			return fmt.Sprintf("%s accepted link at depth %d with target %q but reports/creates target %q",
 				c.Mode, c.Depth, c.Target, o.Reported), false
 		}
-		if c.Mode == "transition" && !o.OnDisk {
+		if (c.Mode == "transition" || c.Mode == "retarget") && !o.OnDisk {
 			return fmt.Sprintf("transition reports link with target %q at depth %d as created but no link is on disk", c.Target, c.Depth), false
 		}
 		return "", false
 	}
 	// Rejected.
-	if c.Mode == "transition" && o.OnDisk {
+	if (c.Mode == "transition" || c.Mode == "retarget") && o.OnDisk {
 		return fmt.Sprintf("transition reports link with target %q at depth %d as not created but a link with target %q is on disk",
 			c.Target, c.Depth, o.Reported), false
 	}
